@@ -35,7 +35,7 @@ type c04Case struct {
 	Ptrace     bool
 	StopBefore bool
 	Sync       bool
-	LateCgroup bool // UnshareCgroupAfterSync
+	LateCgroup bool     // UnshareCgroupAfterSync
 	NS         []string // subset of user pid mnt uts ipc net cgroup
 	Pivot      bool
 	Names      bool // HostName / DomainName
